@@ -13,13 +13,11 @@ Section Reach.
 Variable reorder : reorder_t.
 Hypothesis reorder_perm : reorder_ok reorder.
 
-(* [theta0 c <= MAX_THETA]: what `starting_theta_from_sampling_probability` yields for every
-   sampling probability in (0, 1] *)
 Theorem compact_wf : forall c ops s ordered, cfg_ok c -> reach reorder c ops s ->
-  theta0 c <= MAX_THETA -> c_seed_hash c < 65536 ->
+  c_seed_hash c < 65536 ->
   c_wf (c_seed_hash c) (sk_compact s ordered).
 Proof.
-  intros c ops s ordered Hc Hr Hm Hsh. pose proof (theta0_pos c) as Hp.
+  intros c ops s ordered Hc Hr Hsh. pose proof (theta0_pos c) as Hp. pose proof (theta0_le_max c) as Hm.
   destruct (compact_spec reorder reorder_perm c ops s ordered Hc Hr) as [HP [Hn [He [_ [Hne [Hem [_ [Hso Hseed]]]]]]]].
   destruct (kmv reorder reorder_perm c ops s Hc Hr) as [_ [Hset _]].
   pose proof (theta_le_initial reorder reorder_perm c ops s Hc Hr) as Hle.
@@ -71,6 +69,23 @@ Proof.
   rewrite serialize_size. unfold c_num_retained in Hn.
   assert (El : length (ce_entries (sk_compact s ordered)) = N.to_nat (sk_num_retained s)) by lia.
   rewrite El. split; [reflexivity|]. split; [exact Hp|]. lia.
+Qed.
+
+(* no valid history makes compact() + either serializer reach a panic site *)
+Theorem compact_serializable : forall c ops s ordered, cfg_ok c -> reach reorder c ops s ->
+  c_seed_hash c < 65536 ->
+  exists bs, c_serialize_compressed (sk_compact s ordered) = Ok bs.
+Proof.
+  intros c ops s ordered Hc Hr Hsh. apply safe_serializable. eapply wf_safe. eapply compact_wf; eauto.
+Qed.
+
+(* theta stays a valid sampling threshold: 0 < theta <= 2^63-1 (what the confidence bounds require) *)
+Theorem theta_valid : forall c ops s, cfg_ok c -> reach reorder c ops s ->
+  0 < t_theta s /\ t_theta s <= MAX_THETA.
+Proof.
+  intros c ops s Hc Hr. pose proof (theta0_le_max c) as Hm. split.
+  - apply (theta_pos reorder reorder_perm c ops s Hc Hr). apply theta0_pos.
+  - pose proof (theta_le_initial reorder reorder_perm c ops s Hc Hr). lia.
 Qed.
 
 End Reach.
